@@ -2,9 +2,9 @@
    A data race is a property of memory accesses in the compiled program; no executable model
    exhibits one.  What is logic is the locking discipline; that part is proved here, the rest is
    the Go race detector's (see the check and DESIGN.md C15).  PARTIAL by nature. *)
-From Coq Require Import List NArith Bool.
+From Coq Require Import List NArith Bool String.
 From FsDb Require Import Lockset.
-From FsDb Require LockSkel LockSkelGen LockSkelCheck.
+From FsDb Require LockSkel LockSkelGen LockSkelCheck LockSkelConc.
 Import ListNotations.
 Open Scope N_scope.
 
@@ -47,8 +47,35 @@ Theorem C15_core_accesses_protected :
       match e with LockSkel.Wr l => LockSkel.holds_w h l = true | LockSkel.Rd l => LockSkel.holds h l = true | _ => True end.
 Proof. exact LockSkel.accesses_protected. Qed.
 
+(* from the per-operation discipline to threads: any number of threads, each running events that the discipline accepts
+   for its own operation (rules rl t) on its own stores (sigma t maps the lock names of LockSkel to concrete stores; the
+   all-store is shared), interleaved in ANY order that the lock semantics of Lockset.v allows: in every reachable
+   configuration two different threads never have conflicting accesses (same concrete store, one of them a mutation)
+   enabled together *)
+Theorem C15_no_conflicting_accesses :
+  forall (sigma : nat -> LockSkel.lk -> N) (rl : nat -> LockSkel.rules),
+    (forall t l1 l2, sigma t l1 = sigma t l2 -> l1 = l2) ->
+    forall tr g ta tb ea eb la lb wa wb,
+      LockSkelConc.grun sigma rl LockSkelConc.ginit tr = Some g -> ta <> tb ->
+      (exists g', LockSkelConc.gstep sigma rl g (ta, ea) = Some g') ->
+      (exists g', LockSkelConc.gstep sigma rl g (tb, eb) = Some g') ->
+      LockSkelConc.access_of ea = Some (la, wa) -> LockSkelConc.access_of eb = Some (lb, wb) ->
+      sigma ta la = sigma tb lb -> wa = true \/ wb = true -> False.
+Proof. intros sigma rl Hinj. exact (LockSkelConc.no_conflicting_accesses sigma Hinj rl). Qed.
+
+Example C15_interleaving_nonvacuous :
+  (forall t l1 l2, LockSkelConc.ex_sigma t l1 = LockSkelConc.ex_sigma t l2 -> l1 = l2) /\
+  exists tr g, LockSkelConc.grun LockSkelConc.ex_sigma (fun _ => LockSkel.rules_of "Store"%string) LockSkelConc.ginit tr = Some g /\
+               tr <> [] /\ fst g <> [].
+Proof.
+  split; [exact LockSkelConc.ex_sigma_inj|].
+  exists [(1, LockSkel.Acq LockSkel.LTx true); (1, LockSkel.Acq LockSkel.LAll true); (2, LockSkel.Acq LockSkel.LTx true)]%nat.
+  eexists. split; [vm_compute; reflexivity|]. split; discriminate.
+Qed.
+
 Print Assumptions C15_mutual_exclusion.
 Print Assumptions C15_lockset_sound.
 Print Assumptions C15_table_complete.
 Print Assumptions C15_lock_skeleton_ok.
 Print Assumptions C15_core_accesses_protected.
+Print Assumptions C15_no_conflicting_accesses.
